@@ -551,8 +551,7 @@ FilterLists(v, L) ==
 CodeLists(S) ==
   { << c >> : c \in S } \cup { SetToSortedSeq(S) } \cup { [ i \in 1..n |-> 0 ] : n \in {127, 128} }
 
-(* default packet and alternatives of kind k; tier "full" uses the whole    *)
-(* lattice in every field, "small" the reduced sets used for products       *)
+(* default packet of kind k (the alternatives of every field: Alt below)    *)
 Def(k, v, w) ==
   Merge(Hdr(k, v, w),
   CASE k = "connect" -> [clean |-> TRUE, ka |-> 60, cid |-> St(99, 4), will |-> << >>, user |-> << >>,
